@@ -245,6 +245,37 @@ func refNested(s NestedStruct, be bool) []byte {
 	return o
 }
 
+// PadStruct has blank (reserved / padding) fields, as records of on-disk
+// formats do: encoding/binary writes them as zero bytes and skips them on read,
+// and so must the encoder. A float sits behind an integer field.
+type PadStruct struct {
+	Kind  uint8
+	_     [3]byte
+	Off   uint32
+	_     uint16
+	Score float32
+	Tail  int16
+}
+
+func refPad(s PadStruct, be bool) []byte {
+	put := func(out []byte, x uint64, n int) []byte {
+		for j := 0; j < n; j++ {
+			sh := uint(8 * j)
+			if be {
+				sh = uint(8 * (n - 1 - j))
+			}
+			out = append(out, byte(x>>sh))
+		}
+		return out
+	}
+	o := []byte{s.Kind, 0, 0, 0}
+	o = put(o, uint64(s.Off), 4)
+	o = append(o, 0, 0)
+	o = put(o, uint64(math.Float32bits(s.Score)), 4)
+	o = put(o, uint64(uint16(s.Tail)), 2)
+	return o
+}
+
 // randFixedType builds a random fixed-size type: scalars, arrays and structs
 // nested up to depth levels (arrays of padded structs included).
 func randFixedType(r *RNG, depth int) reflect.Type {
@@ -541,8 +572,9 @@ func runC15(ctx *Ctx, idx int) {
 			}
 			e1, err1 := encode.NewTypeEncoderEndian(TStruct{}, order)
 			e2, err2 := encode.NewTypeEncoderEndian(NestedStruct{}, order)
-			if err1 != nil || err2 != nil {
-				fail(name, "constructor-error", nil, map[string]interface{}{"error": fmt.Sprint(err1, err2)})
+			e3, err3 := encode.NewTypeEncoderEndian(PadStruct{}, order)
+			if err1 != nil || err2 != nil || err3 != nil {
+				fail(name, "constructor-error", nil, map[string]interface{}{"error": fmt.Sprint(err1, err2, err3)})
 				return
 			}
 			for i := 0; i < j.count/2; i++ {
@@ -559,6 +591,11 @@ func runC15(ctx *Ctx, idx int) {
 				if !chk(name+"/Nested", e2, ns, refNested(ns, be)) {
 					break
 				}
+				ps := PadStruct{Kind: uint8(x), Off: uint32(y >> 3), Score: float32(int32(x>>9)) / 16, Tail: int16(y >> 40)}
+				if !chk(name+"/Padded", e3, ps, refPad(ps, be)) {
+					break
+				}
+				ctx.Count("struct_values_with_blank_fields", 1)
 			}
 		}
 		// random fixed-size types: nested arrays and structs, arrays of padded
@@ -750,7 +787,7 @@ func init() {
 			if tier == "thorough" && (m.C("exhaustive32:i32") != 1<<32 || m.C("exhaustive32:u32") != 1<<32) {
 				missed = append(missed, "32-bit exhaustive")
 			}
-			for _, g := range []string{"values:i32", "values:u32", "values:i64", "values:u64", "values:int", "values:str16", "values:bytes", "values:struct", "values:prim", "values:dummy", "values:defined_types", "random_struct_types", "random_types:array_of_padded_structs", "typeencoder_made_by:struct literal", "typeencoder_values_also_encoded_through_a_pointer", "typeencoder_made_by:Endian assigned after construction", "typeencoder_made_by:by-value copy with another Endian", "str16:lenclass_16", "str16:lenclass_0", "bytes:sizeclass_0", "bytes:sizeclass_13"} {
+			for _, g := range []string{"values:i32", "values:u32", "values:i64", "values:u64", "values:int", "values:str16", "values:bytes", "values:struct", "values:prim", "values:dummy", "values:defined_types", "random_struct_types", "random_types:array_of_padded_structs", "typeencoder_made_by:struct literal", "struct_values_with_blank_fields", "typeencoder_values_also_encoded_through_a_pointer", "typeencoder_made_by:Endian assigned after construction", "typeencoder_made_by:by-value copy with another Endian", "str16:lenclass_16", "str16:lenclass_0", "bytes:sizeclass_0", "bytes:sizeclass_13"} {
 				if m.C(g) == 0 {
 					missed = append(missed, g)
 				}
